@@ -279,13 +279,29 @@ def model_status(m):
     return "bad:" + json.dumps(m)[:100]
 
 
+def keyed(records):
+    """(builder, app) -> record. An app name may be defined in several contexts (one record per definition and builder; at most
+    one of them is eligible when the contexts are not nested): the records of one (builder, app) are ordered with `built` first and
+    then by decision, the first gets the key (builder, app), the others (builder, app, i). Both sides are keyed the same way, so
+    the comparison is one of multisets of decisions."""
+    groups = {}
+    for b in records:
+        groups.setdefault((b["builder"], b["app"]), []).append(b)
+    out = {}
+    for k, g in groups.items():
+        g = sorted(g, key=lambda b: (b["decision"] != "built", b["decision"]))
+        for i, b in enumerate(g):
+            out[k if i == 0 else k + (i,)] = b
+    return out
+
+
 def impl_builds(r):
     """(builder, app) -> dump record"""
-    return {(b["builder"], b["app"]): b for b in r.get("dump", [])}
+    return keyed(r.get("dump", []))
 
 
 def model_builds(m):
-    return {(b["builder"], b["app"]): b for b in m["ok"]["builds"]}
+    return keyed(m["ok"]["builds"])
 
 
 def impl_task_view(t):
